@@ -45,8 +45,11 @@ pub enum Op {
 #[derive(Clone, Debug, PartialEq)]
 pub struct Scn {
     pub tasks: Vec<Vec<Op>>,
-    /// which task performs the next operation
+    /// which task performs the next operation (call-granular baton)
     pub order: Vec<usize>,
+    /// fine-grained mode: threads are interleaved at the yield points *inside* library calls; the
+    /// scheduler switches to a seeded other live thread with probability num/den at each point
+    pub fine: Option<(u64, u32, u32)>,
 }
 
 #[derive(Clone, Debug, PartialEq)]
@@ -110,6 +113,7 @@ impl Chain {
             "scenarios": self.scenarios.iter().map(|s| json!({
                 "tasks": s.tasks.iter().map(|t| t.iter().map(op_to_json).collect::<Vec<_>>()).collect::<Vec<_>>(),
                 "order": s.order,
+                "fine": s.fine.map(|(seed, n, d)| json!({"seed": seed, "num": n, "den": d})),
             })).collect::<Vec<_>>(),
         })
     }
@@ -136,6 +140,15 @@ impl Chain {
                     .iter()
                     .map(|x| x.as_u64().unwrap_or(0) as usize)
                     .collect(),
+                fine: if s["fine"].is_object() {
+                    Some((
+                        s["fine"]["seed"].as_u64().unwrap_or(0),
+                        s["fine"]["num"].as_u64().unwrap_or(1) as u32,
+                        s["fine"]["den"].as_u64().unwrap_or(4) as u32,
+                    ))
+                } else {
+                    None
+                },
             });
         }
         Ok(Chain { pool, scenarios })
@@ -176,12 +189,18 @@ pub fn solo_main(ctx: &Ctx, file: &str, label: &str) -> i32 {
         Some(p) => p,
         None => return 2,
     };
-    match analyze_file(&text, 0, pat) {
-        Ok(l) => {
+    // same stack budget as the task threads of the histories
+    let res = std::thread::Builder::new()
+        .stack_size(64 << 20)
+        .spawn(move || analyze_file(&text, 0, pat))
+        .ok()
+        .and_then(|h| h.join().ok());
+    match res {
+        Some(Ok(l)) => {
             say!("{}", json!(l.into_iter().collect::<Vec<i32>>()));
             0
         }
-        Err(_) => {
+        _ => {
             say!("\"PANIC\"");
             0
         }
@@ -337,6 +356,198 @@ fn exec_op(op: &Op, pool: &BTreeMap<String, String>, doc: &HashMap<Cat, Vec<Stri
     }
 }
 
+// ---- fine-grained interleaving: the baton changes hands at yield points inside library calls
+
+struct FineState {
+    current: usize,
+    live: Vec<bool>,
+    rng: Rng,
+    num: u32,
+    den: u32,
+    trace: u64,
+    switches: u64,
+    yields: u64,
+    max_parked_depth_sum: u64,
+    depth: Vec<u64>,
+}
+
+struct FineSched {
+    m: Mutex<FineState>,
+    cv: Condvar,
+}
+
+impl FineSched {
+    fn pick_other(st: &mut FineState, me: usize) -> Option<usize> {
+        let others: Vec<usize> = (0..st.live.len()).filter(|i| *i != me && st.live[*i]).collect();
+        if others.is_empty() {
+            None
+        } else {
+            Some(others[st.rng.below(others.len())])
+        }
+    }
+    fn wait_turn(&self, me: usize) {
+        let mut g = self.m.lock().unwrap();
+        while g.current != me {
+            g = self.cv.wait(g).unwrap();
+        }
+    }
+    fn yield_now(&self, me: usize) {
+        let mut g = self.m.lock().unwrap();
+        g.yields += 1;
+        g.depth[me] += 1; // number of yield points passed inside the current call (a proxy of progress)
+        let (n, d) = (g.num, g.den);
+        if g.rng.chance(n, d) {
+            if let Some(o) = Self::pick_other(&mut g, me) {
+                g.current = o;
+                g.switches += 1;
+                g.trace = mix(g.trace ^ ((me as u64) << 32 | o as u64) ^ g.yields);
+                self.cv.notify_all();
+                while g.current != me {
+                    g = self.cv.wait(g).unwrap();
+                }
+            }
+        }
+    }
+    fn finish(&self, me: usize) {
+        let mut g = self.m.lock().unwrap();
+        g.live[me] = false;
+        if let Some(o) = Self::pick_other(&mut g, me) {
+            g.current = o;
+        }
+        self.cv.notify_all();
+    }
+}
+
+struct FineEnv {
+    sched: Arc<FineSched>,
+    me: usize,
+}
+
+fn unsupported<T>() -> std::io::Result<T> {
+    Err(std::io::Error::new(std::io::ErrorKind::Other, "no file system in fine-grained mode"))
+}
+
+impl solstat::verif_shim::Env for FineEnv {
+    fn read_dir(&self, _: &std::path::Path) -> std::io::Result<Vec<std::path::PathBuf>> {
+        unsupported()
+    }
+    fn is_dir(&self, _: &std::path::Path) -> bool {
+        false
+    }
+    fn is_file(&self, _: &std::path::Path) -> bool {
+        false
+    }
+    fn file_len(&self, _: &std::path::Path) -> std::io::Result<u64> {
+        unsupported()
+    }
+    fn read(&self, _: &std::path::Path) -> std::io::Result<Vec<u8>> {
+        unsupported()
+    }
+    fn write(&self, _: &std::path::Path, _: &[u8], _: solstat::verif_shim::WriteMode) -> std::io::Result<()> {
+        unsupported()
+    }
+    fn remove_file(&self, _: &std::path::Path) -> std::io::Result<()> {
+        unsupported()
+    }
+    fn remove_dir_all(&self, _: &std::path::Path) -> std::io::Result<()> {
+        unsupported()
+    }
+    fn rename(&self, _: &std::path::Path, _: &std::path::Path) -> std::io::Result<()> {
+        unsupported()
+    }
+    fn create_dir_all(&self, _: &std::path::Path) -> std::io::Result<()> {
+        unsupported()
+    }
+    fn current_dir(&self) -> std::io::Result<std::path::PathBuf> {
+        unsupported()
+    }
+    fn iteration_order(&self, _: &'static str, keys: &[String]) -> Vec<usize> {
+        (0..keys.len()).collect()
+    }
+    fn args(&self) -> Option<Vec<String>> {
+        None
+    }
+    fn exit(&self, code: i32) -> ! {
+        std::panic::resume_unwind(Box::new(solstat::verif_shim::SimExit(code)))
+    }
+    fn yield_point(&self, _site: &'static str) {
+        self.sched.yield_now(self.me);
+    }
+}
+
+/// Fine-grained scenario: every task on its own OS thread; exactly one thread runs at a time; the
+/// baton changes hands at the yield points inside `walk_node_for_targets` and between calls,
+/// as the seeded policy decides.
+fn exec_fine(
+    si: usize,
+    scn: &Scn,
+    pool: &BTreeMap<String, String>,
+    doc: &HashMap<Cat, Vec<String>>,
+) -> (Vec<Obs>, u64, u64, u64) {
+    let (seed, num, den) = scn.fine.unwrap_or((0, 1, 4));
+    let n = scn.tasks.len();
+    let sched = Arc::new(FineSched {
+        m: Mutex::new(FineState {
+            current: 0,
+            live: vec![true; n],
+            rng: Rng::new(seed),
+            num,
+            den: den.max(1),
+            trace: 0,
+            switches: 0,
+            yields: 0,
+            max_parked_depth_sum: 0,
+            depth: vec![0; n],
+        }),
+        cv: Condvar::new(),
+    });
+    let obs: Mutex<Vec<Obs>> = Mutex::new(vec![]);
+    std::thread::scope(|s| {
+        for t in 0..n {
+            let sched = sched.clone();
+            let ops = &scn.tasks[t];
+            let obs = &obs;
+            std::thread::Builder::new()
+                .name(format!("task{}", t))
+                .stack_size(64 << 20)
+                .spawn_scoped(s, move || {
+                    sched.wait_turn(t);
+                    let env: Arc<dyn solstat::verif_shim::Env> = Arc::new(FineEnv {
+                        sched: sched.clone(),
+                        me: t,
+                    });
+                    solstat::verif_shim::install(env);
+                    for (oi, op) in ops.iter().enumerate() {
+                        if let Op::File { .. } = op {
+                            let res = exec_op(op, pool, doc);
+                            let mut g = obs.lock().unwrap();
+                            for (text, pat, lines, how) in res {
+                                g.push(Obs {
+                                    scn: si,
+                                    step: oi,
+                                    task: t,
+                                    thread: format!("task{}", t),
+                                    text,
+                                    pat,
+                                    lines,
+                                    how: format!("{} interleaved with other threads at yield points inside the call", how),
+                                });
+                            }
+                        }
+                        sched.yield_now(t);
+                    }
+                    solstat::verif_shim::uninstall();
+                    sched.finish(t);
+                })
+                .expect("spawn task");
+        }
+    });
+    let g = sched.m.lock().unwrap();
+    let mut o = obs.into_inner().unwrap();
+    o.sort_by_key(|x| (x.task, x.step));
+    (o, g.switches, g.yields, g.trace)
+}
+
 struct Baton {
     step: usize,
     obs: Vec<Obs>,
@@ -344,7 +555,11 @@ struct Baton {
 }
 
 /// Run one scenario: tasks on real OS threads, one at a time, in the scheduled order.
-pub fn exec_scn(si: usize, scn: &Scn, pool: &BTreeMap<String, String>, doc: &HashMap<Cat, Vec<String>>) -> (Vec<Obs>, u64) {
+pub fn exec_scn(si: usize, scn: &Scn, pool: &BTreeMap<String, String>, doc: &HashMap<Cat, Vec<String>>) -> (Vec<Obs>, u64, u64, u64) {
+    if scn.fine.is_some() {
+        let (o, switches, yields, trace) = exec_fine(si, scn, pool, doc);
+        return (o, switches, mix(trace ^ 0xf1e), yields);
+    }
     let n_tasks = scn.tasks.len();
     let shared = Arc::new((
         Mutex::new(Baton {
@@ -419,10 +634,13 @@ pub fn exec_scn(si: usize, scn: &Scn, pool: &BTreeMap<String, String>, doc: &Has
         }
     });
     let g = shared.0.lock().unwrap();
-    (g.obs.clone(), switches)
+    (g.obs.clone(), switches, hash_str(91, &format!("{:?}", order)), 0)
 }
 
 pub struct ChainResult {
+    pub fine_scenarios: u64,
+    pub fine_switches: u64,
+    pub yield_points: u64,
     pub violation: Option<(String, String, usize)>, // clause, detail, scenario index
     pub observations: u64,
     pub ops: u64,
@@ -434,6 +652,9 @@ pub struct ChainResult {
 
 pub fn exec_chain(chain: &Chain, base: &Baseline, doc: &HashMap<Cat, Vec<String>>) -> ChainResult {
     let mut r = ChainResult {
+        fine_scenarios: 0,
+        fine_switches: 0,
+        yield_points: 0,
         violation: None,
         observations: 0,
         ops: 0,
@@ -443,10 +664,15 @@ pub fn exec_chain(chain: &Chain, base: &Baseline, doc: &HashMap<Cat, Vec<String>
         schedules: vec![],
     };
     for (si, scn) in chain.scenarios.iter().enumerate() {
-        let (obs, sw) = exec_scn(si, scn, &chain.pool, doc);
+        let (obs, sw, sched_hash, yields) = exec_scn(si, scn, &chain.pool, doc);
         r.switches += sw;
         r.ops += scn.tasks.iter().map(|t| t.len() as u64).sum::<u64>();
-        r.schedules.push(hash_str(91, &format!("{:?}", scn.order)));
+        r.schedules.push(sched_hash);
+        if scn.fine.is_some() {
+            r.fine_scenarios += 1;
+            r.fine_switches += sw;
+            r.yield_points += yields;
+        }
         // task switch between two calls touching the same text
         let mut last: HashMap<&String, usize> = HashMap::new();
         for o in &obs {
@@ -546,6 +772,38 @@ pub fn gen_scn(rng: &mut Rng, names: &[String]) -> Scn {
     for _ in 0..rng.range(1, 3) {
         focus.push(rng.pick(names).clone());
     }
+    if rng.chance(1, 3) {
+        // fine-grained: direct calls only, interleaved inside the calls; prefer the deeply nested texts
+        let deep: Vec<String> = names.iter().filter(|n| n.starts_with("deep")).cloned().collect();
+        let n_tasks = rng.range(2, 5);
+        let mut tasks = vec![];
+        for _ in 0..n_tasks {
+            let mut ops = vec![];
+            for _ in 0..rng.range(1, 3) {
+                let cat = *rng.pick(&CATS);
+                let d = defaults(cat);
+                let text = if !deep.is_empty() && rng.chance(2, 3) {
+                    rng.pick(&deep).clone()
+                } else if rng.chance(1, 2) {
+                    rng.pick(&focus).clone()
+                } else {
+                    rng.pick(names).clone()
+                };
+                ops.push(Op::File {
+                    text,
+                    file_no: *rng.pick(&FILE_NOS),
+                    pat: rng.pick(&d).label(),
+                });
+            }
+            tasks.push(ops);
+        }
+        let (num, den) = *rng.pick(&[(1u32, 2u32), (1, 4), (1, 16), (1, 64)]);
+        return Scn {
+            tasks,
+            order: vec![],
+            fine: Some((rng.next(), num, den)),
+        };
+    }
     let mut tasks = vec![];
     let mut order = vec![];
     for t in 0..n_tasks {
@@ -563,7 +821,29 @@ pub fn gen_scn(rng: &mut Rng, names: &[String]) -> Scn {
         tasks.push(ops);
     }
     rng.shuffle(&mut order);
-    Scn { tasks, order }
+    Scn {
+        tasks,
+        order,
+        fine: None,
+    }
+}
+
+/// A text whose function bodies are nested `depth` levels deep, with findings at the bottom.
+pub fn deep_text(depth: usize, variant: usize) -> String {
+    let mut s = String::from("pragma solidity 0.8.16;\n\ncontract Deep {\n    uint256 x;\n");
+    for f in 0..2 {
+        s.push_str(&format!("    function f{}(uint256 a, uint256 b, uint256 c) public {{\n", f));
+        for d in 0..depth {
+            s.push_str(&format!("{}if (a > {}) {{\n", " ".repeat(8 + d % 8), d + variant));
+        }
+        s.push_str("            x = a / b * c + a * 2;\n            x = x + 1;\n");
+        for _ in 0..depth {
+            s.push_str("        }\n");
+        }
+        s.push_str("    }\n");
+    }
+    s.push_str("}\n");
+    s
 }
 
 pub fn gen_pool(seed: u64, n: usize) -> BTreeMap<String, String> {
@@ -592,6 +872,12 @@ pub fn gen_pool(seed: u64, n: usize) -> BTreeMap<String, String> {
         }
         pool.insert(format!("p{}.sol", pool.len()), t);
         i += 1;
+    }
+    for (k, depth) in [10usize, 18, 26, 32].iter().enumerate() {
+        let t = deep_text(*depth, k);
+        if screen.ok(&t) {
+            pool.insert(format!("deep{}.sol", depth), t);
+        }
     }
     pool
 }
@@ -643,6 +929,7 @@ pub fn chain_main(ctx: &Ctx, dir: &str, index: u64) -> i32 {
     let mut out = json!({
         "observations": r.observations, "ops": r.ops, "switches": r.switches,
         "same_text_switch": r.same_text_switch, "trace": r.trace, "schedules": r.schedules,
+        "fine_scenarios": r.fine_scenarios, "fine_switches": r.fine_switches, "yield_points": r.yield_points,
         "scenarios": chain.scenarios.len(),
     });
     if let Some((clause, detail, si)) = r.violation {
@@ -653,6 +940,7 @@ pub fn chain_main(ctx: &Ctx, dir: &str, index: u64) -> i32 {
     }
     out["sample"] = json!({
         "first_scenario_order": chain.scenarios[0].order,
+        "first_scenario_fine_policy": chain.scenarios[0].fine.map(|(s, n, d)| format!("seed {} switch probability {}/{} at every yield point", s, n, d)),
         "first_scenario_tasks": chain.scenarios[0].tasks.iter().map(|t| t.iter().map(|o| match o {
             Op::File{text, file_no, pat} => format!("file({}, #{}, {})", text, file_no, pat),
             Op::Dir{cat, pats, tree, ..} => format!("dir({} patterns of {}, [{}])", pats.len(), cat, tree.iter().map(|(p,_)| p.as_str()).collect::<Vec<_>>().join(" ")),
@@ -779,6 +1067,10 @@ impl Property for C15 {
         }
         r.fault("task_switch", v["switches"].as_u64().unwrap_or(0));
         r.fault("chain_without_reset", 1);
+        r.fault("switch_inside_library_call", v["fine_switches"].as_u64().unwrap_or(0));
+        r.count("fine_grained_scenarios", v["fine_scenarios"].as_u64().unwrap_or(0));
+        r.count("yield_points_passed", v["yield_points"].as_u64().unwrap_or(0));
+        r.probe("thread_switch_inside_a_library_call", v["fine_switches"].as_u64().unwrap_or(0) > 0);
         let sts = v["same_text_switch"].as_u64().unwrap_or(0);
         r.probe("task_switch_between_calls_on_same_file", sts > 0);
         if let Some(a) = v["schedules"].as_array() {
@@ -886,6 +1178,17 @@ impl Property for C15 {
                     push(&mut out, d);
                 }
             }
+            if let Some((seed, _n, _d)) = s.fine {
+                // coarser switching
+                for (n2, d2) in [(1u32, 64u32), (1, 16)] {
+                    if s.fine != Some((seed, n2, d2)) {
+                        let mut d = c.clone();
+                        d.scenarios[si].fine = Some((seed, n2, d2));
+                        push(&mut out, d);
+                    }
+                }
+                continue;
+            }
             // sequential order
             let mut seq = vec![];
             for (t, ops) in s.tasks.iter().enumerate() {
@@ -927,10 +1230,13 @@ impl Property for C15 {
         out
     }
     fn required_probes(&self) -> Vec<&'static str> {
-        vec!["task_switch_between_calls_on_same_file"]
+        vec![
+            "task_switch_between_calls_on_same_file",
+            "thread_switch_inside_a_library_call",
+        ]
     }
     fn rule(&self) -> String {
-        format!("Baseline: for a seeded pool of screened texts (incl. pairs of equal length with different line structure) every (text, default pattern) verdict is computed by one call in a fresh child process. Each evaluation is one scenario of a chain: a chain is {} scenarios executed in one child process with nothing reset in between; a scenario is 2-4 tasks on real OS threads passing a baton (the seeded order says which thread performs the next operation), operations are analyze_for_*(text, arbitrary file_no, pattern), repeated calls, and analyze_dir over private worlds embedding pool files (unique names) among varying siblings, depths, listing orders, pattern subsets and orders. Every observation (direct result, or the entry/absence attributable to that file in a directory result) must equal the baseline. Non-trivial = the chain contains a task switch between two operations touching the same text; distinct = distinct baton order. Replay and every minimisation step run in a fresh process and recompute the baseline.", SCN_PER_CHAIN)
+        format!("Baseline: for a seeded pool of screened texts (incl. pairs of equal length with different line structure) every (text, default pattern) verdict is computed by one call in a fresh child process. Each evaluation is one scenario of a chain: a chain is {} scenarios executed in one child process with nothing reset in between; a scenario is 2-4 tasks on real OS threads passing a baton (the seeded order says which thread performs the next operation), operations are analyze_for_*(text, arbitrary file_no, pattern), repeated calls, and analyze_dir over private worlds embedding pool files (unique names) among varying siblings, depths, listing orders, pattern subsets and orders. A third of the scenarios are fine-grained: 2-5 threads make direct calls (preferring deeply nested texts, 10-32 levels) and the baton changes hands at the cooperative yield points inside the AST walker (guarded hook), with a seeded switch probability of 1/2 .. 1/64 per point, so calls of different threads are interleaved mid-walk, one thread running at a time. Every observation (direct result, or the entry/absence attributable to that file in a directory result) must equal the baseline. Non-trivial = the chain contains a task switch between two operations touching the same text; distinct = distinct baton order. Replay and every minimisation step run in a fresh process and recompute the baseline.", SCN_PER_CHAIN)
     }
     fn assumptions(&self) -> Vec<String> {
         vec![
